@@ -131,20 +131,51 @@ class Host:
 
         return DebugAuthenticationChallenge.parse(data)
 
+    def resp_cfg(self, dc_bytes, beacon, dck_name):
+        """A NEW configuration dictionary of `nxpdebugmbox dat auth` for this credential (the credential goes through a file)."""
+        path = os.path.join(scratch(), f"c15-{os.getpid()}-{self.sc['id']}.dc")
+        with open(path, "wb") as f:
+            f.write(dc_bytes)
+        cfg = {"family": self.fam["family"], "revision": self.fam["revision"], "certificate": path, "beacon": beacon}
+        if self.sc["case"]["cls"] == "ele2":  # the response is a signed message: SRK table + debug key as the signing key of the container
+            cfg.update({"srk_set": "oem", "used_srk_id": self.sc["case"]["used"], "srk_revoke_mask": 0,
+                        "srk_table": {"flag_ca": False, "srk_array": [kp(k, self.ks, "pub") for k in key_names(self.sc)[0]]},
+                        "signing_key": kp(dck_name, self.ks, "pem"), "output": os.path.join(scratch(), f"c15-{os.getpid()}-{self.sc['id']}.dar")})
+        else:
+            cfg["dck_private_key"] = kp(dck_name, self.ks, "pem")
+        return cfg
+
     def respond(self, dc_obj, dc_bytes, dac, beacon, dck_name, how):
         from spsdk.dat.dar_packet import DebugAuthenticateResponse
 
-        pem = kp(dck_name, self.ks, "pem")
         if how == "config":
-            path = os.path.join(scratch(), f"c15-{os.getpid()}-{self.sc['id']}.dc")
-            with open(path, "wb") as f:
-                f.write(dc_bytes)
-            cfg = {"family": self.fam["family"], "revision": self.fam["revision"], "certificate": path, "beacon": beacon, "dck_private_key": pem}
-            dar = DebugAuthenticateResponse.load_from_config(cfg, dac)
+            dar = DebugAuthenticateResponse.load_from_config(self.resp_cfg(dc_bytes, beacon, dck_name), dac)
         else:
-            dar = DebugAuthenticateResponse.create(family=self.fam["family"], version=None, dc=dc_obj, auth_beacon=beacon, dac=dac, dck=pem)
+            dar = DebugAuthenticateResponse.create(family=self.fam["family"], version=None, dc=dc_obj, auth_beacon=beacon, dac=dac, dck=kp(dck_name, self.ks, "pem"))
         self.dar_obj = dar
         return dar.export()
+
+    def hist_begin(self):
+        self.h_cfg, self.h_dar = None, None
+
+    def hist_step(self, mode, dc_obj, dc_bytes, dac, beacon, dck_name):
+        """One answer of a history (DatTerms.Modes): what the host re-uses from its earlier answers is the whole point."""
+        from spsdk.dat.dar_packet import DebugAuthenticateResponse
+
+        if mode == "again":      # the response object of the previous step, exported once more
+            if self.h_dar is None:
+                raise LookupError("the previous step built no response object")
+            return self.h_dar.export()
+        self.h_dar = None
+        if mode == "obj":        # the credential object the host holds already, handed to the response constructor again
+            self.h_dar = DebugAuthenticateResponse.create(family=self.fam["family"], version=None, dc=dc_obj, auth_beacon=beacon, dac=dac,
+                                                          dck=kp(dck_name, self.ks, "pem"))
+        else:
+            if mode == "fresh" or self.h_cfg is None:
+                self.h_cfg = self.resp_cfg(dc_bytes, beacon, dck_name)
+            self.h_cfg["beacon"] = beacon   # "cfg": the SAME dictionary object as before, only the caller's own beacon entry is set
+            self.h_dar = DebugAuthenticateResponse.load_from_config(self.h_cfg, dac)
+        return self.h_dar.export()
 
     def make_dac(self, data, hl):
         """Challenge object through the public constructor (used only after DebugAuthenticationChallenge.parse was rejected)."""
@@ -160,6 +191,15 @@ class Host:
         from spsdk.utils.crypto.rot import Rot
 
         return Rot(self.fam["family"], self.fam["revision"], [kp(k, self.ks, "pub") for k in rot_names]).calculate_hash()
+
+    def tools2_hash(self, rot_names, used):
+        """Second image-tool path: the certificate block v2.1 (MBI / SB3.1 / `nxpimage cert-block`) built over the same key files."""
+        from spsdk.crypto.utils import extract_public_key
+        from spsdk.utils.crypto.cert_blocks import CertBlockV21
+
+        cb = CertBlockV21(root_certs=[extract_public_key(kp(k, self.ks, "pub")) for k in rot_names], ca_flag=True, used_root_cert=used)
+        cb.calculate()
+        return cb.rkth
 
 
 class RefHost:
@@ -245,6 +285,53 @@ class RefHost:
     def tools_hash(self, rot_names):
         return hashlib_ref(list(self.ver), [D.load_pub(kp(k, self.ks, "pub")) for k in rot_names], self.ele)
 
+    def tools2_hash(self, rot_names, used):
+        return self.tools_hash(rot_names)
+
+    def hist_begin(self):
+        self.h_dar = None
+
+    def hist_step(self, mode, dc_obj, dc_bytes, dac, beacon, dck_name):
+        if mode != "again":
+            pub = D.load_pub(kp(dck_name, self.ks, "pub"))
+            self.h_dar = RefHost.DAR(self.fam["family"], dc_obj, beacon, dac, (D.load_priv(kp(dck_name, self.ks, "pem")), self.ver[0] == 2, D.scheme_for(pub, self.ele)))
+        return self.h_dar.export()
+
+
+def key_names(sc):
+    """Key files of a scenario: RoT keys srk0.. and the debug key dck of the key set, with the key the case names (lz: the used RoT key,
+    another RoT key, the debug key) replaced by the key of the pool whose X / Y coordinate starts with a zero byte."""
+    case = sc["case"]
+    rot, dck = [f"srk{i}" for i in range(case["nkeys"])], "dck"
+    lz = case.get("lz", "none")
+    if lz == "used":
+        rot[case["used"]] = "lz" + case["coord"]
+    elif lz == "dck":
+        dck = "lz" + case["coord"]
+    elif lz == "other":
+        rot[rng(PROP, "lzpos", sc["id"]).choice([i for i in range(case["nkeys"]) if i != case["used"]])] = "lz" + case["coord"]
+    return rot, dck
+
+
+def shape(pub):
+    """Which coordinates of an ECC public key start with a zero byte: '-', 'x', 'y', 'xy' (RSA: '-')."""
+    if pub.kind != "ecc":
+        return "-"
+    top = 8 * (pub.size - 1)
+    return (("x" if pub.a >> top == 0 else "") + ("y" if pub.b >> top == 0 else "")) or "-"
+
+
+def case_event(sc, ks):
+    case = sc["case"]
+    rot, dck = key_names(sc)
+    return {"e": "Case", "cls": case["cls"], "ver": list(case["ver"]), "nkeys": case["nkeys"], "used": case["used"], "wild": case["wild"], "sha256": sc["fam"]["sha256"],
+            "lz": case.get("lz", "none"), "coord": case.get("coord", "-"),
+            "shapes": {"rot": [shape(D.load_pub(kp(k, ks, "pub"))) for k in rot], "dck": shape(D.load_pub(kp(dck, ks, "pub")))}, "skip": []}
+
+
+def beacon_name(value, beacons):
+    return next((k for k in sorted(beacons) if beacons[k] == value), "other")
+
 
 def spsdk_fields(dc):
     """Field values of an SPSDK credential object, in the shape the spec compares."""
@@ -299,9 +386,10 @@ def _run_scenario_ele2(sc):
     ver, used = list(case["ver"]), case["used"]
     ks = KEYSET[tuple(ver)]
     host = Host(sc)
-    ev = [{"e": "Case", "cls": "ele2", "ver": ver, "nkeys": 4, "used": used, "wild": case["wild"], "sha256": fam["sha256"], "skip": []}]
+    ev = [case_event(sc, ks)]
     wit = {"blobs": {}}
     trace = {"id": sc["id"], "ev": ev, "sc": sc, "wit": wit}
+    rot, dck = key_names(sc)
 
     def done():
         ev.append({"e": "Done"})
@@ -310,14 +398,16 @@ def _run_scenario_ele2(sc):
     u1 = bytes(r.randrange(1, 256) for _ in range(16))
     ch1 = bytes(r.randrange(256) for _ in range(32))
     beacon = r.randrange(1, 1 << 16)
+    chs = {"ch1": ch1, "ch2": bytes(r.randrange(256) for _ in range(32))}
+    beacons = {"b1": beacon, "b2": (beacon ^ (1 << r.randrange(16))) or 1}
     if not case["wild"] and sc["id"] % 7 == 3:  # a device whose UUID is a small number (eight leading zero bytes)
         u1 = bytes(8) + u1[8:]
     uuid = bytes(16) if case["wild"] else u1
     socu = r.getrandbits(32)
-    pubs = [D.load_pub(kp(f"srk{i}", ks, "pub")) for i in range(4)]
-    dck_ref = D.load_pub(kp("dck", ks, "pub"))
+    pubs = [D.load_pub(kp(k, ks, "pub")) for k in rot]
+    dck_ref = D.load_pub(kp(dck, ks, "pub"))
     cfg = {"family": fam["family"], "revision": fam["revision"], "cc_socu": hex(socu), "uuid": "0x" + uuid.hex(), "fuse_version": 0,
-           "public_key_0": kp("dck", ks, "pub"), "signing_key_0": kp(f"srk{used}", ks, "pem")}
+           "public_key_0": kp(dck, ks, "pub"), "signing_key_0": kp(rot[used], ks, "pem")}
     try:
         dc_obj = DebugCredentialEdgeLockEnclaveV2.create_from_yaml_config(config=dict(cfg))
         dc_obj.sign()
@@ -355,8 +445,12 @@ def _run_scenario_ele2(sc):
     # ---- challenge (the enclave families send the version minor first), response
     ref_table = D.ref_srk_table2(pubs)
     fuses = hashlib.sha512(ref_table).digest()
-    raw = D.build_dac([0, 2] if fam["swapped"] else [2, 0], fam["socc"], u1, fuses[:32], ch1, revocation=r.getrandbits(4), pinned=r.getrandbits(32),
-                      default=r.getrandbits(32), vu=r.getrandbits(32))
+
+    def dac_bytes(ch):
+        return D.build_dac([0, 2] if fam["swapped"] else [2, 0], fam["socc"], u1, fuses[:32], chs[ch], revocation=r.getrandbits(4), pinned=r.getrandbits(32),
+                           default=r.getrandbits(32), vu=r.getrandbits(32))
+
+    raw = dac_bytes("ch1")
     try:
         dac = host.parse_dac(raw)
         try:
@@ -370,14 +464,10 @@ def _run_scenario_ele2(sc):
         ev.append({"e": "Dac", "ok": False, "len": len(raw), "hl": 32, "exc": exc_name(e), "msg": str(e)[:200]})
         host.ver = (2, 0)
         dac = host.make_dac(raw, 32)
-    path = os.path.join(scratch(), f"c15-{os.getpid()}-{sc['id']}.dc")
-    with open(path, "wb") as f:
-        f.write(dcb)
-    rcfg = {"family": fam["family"], "revision": fam["revision"], "certificate": path, "beacon": beacon, "srk_set": "oem", "used_srk_id": used, "srk_revoke_mask": 0,
-            "srk_table": {"flag_ca": False, "srk_array": [kp(f"srk{i}", ks, "pub") for i in range(4)]}, "signing_key": kp("dck", ks, "pem"),
-            "output": os.path.join(scratch(), f"c15-{os.getpid()}-{sc['id']}.dar")}
+        host.parse_dac = lambda data: host.make_dac(data, 32)
+    dacs = {"ch1": dac}
     try:
-        dar = DebugAuthenticateResponse.load_from_config(rcfg, dac).export()
+        dar = DebugAuthenticateResponse.load_from_config(host.resp_cfg(dcb, beacon, dck), dac).export()
     except Exception as e:  # noqa: BLE001 - nothing was built
         ev.append({"e": "Respond", "ok": False, "exc": exc_name(e), "msg": str(e)[:200], "spsdk": is_spsdk_error(e)})
         return done()
@@ -391,11 +481,11 @@ def _run_scenario_ele2(sc):
     ev.append({"e": "DarFields", "dcEq": m["cert"] == dcb, "beacon": limbs(m["beacon"]), "beaconIn": limbs(beacon), "chalOk": m["challenge"] == ch1,
                "msgUuid": m["msg_uuid"].hex(), "usedOk": m["used"] == used})
     try:
-        tools = host.tools_hash([f"srk{i}" for i in range(4)]).hex() if sc["tools"] else "n/a"
+        tools = host.tools_hash(rot).hex() if sc["tools"] else "n/a"
     except Exception as e:  # noqa: BLE001
         tools = "raise:" + exc_name(e)
     ev.append({"e": "CheckRotHash", "fromBytes": hashlib.sha512(m["table_raw"]).hexdigest() if m["srk_data_ok"] and m["rot_pub"] == pubs[used] else "srk-data-mismatch",
-               "ref": fuses.hex(), "dc": "n/a", "tools": tools})
+               "ref": fuses.hex(), "dc": "n/a", "tools": tools, "tools2": "n/a"})
     ok = D.verify(dck_ref, m["sig"], m["signed"], scheme)
     ev.append({"e": "CheckResponseSignature", "from": 0, "to": len(m["signed"]), "sigAt": m["sig_at"] + 8, "sigLen": len(m["sig"]), "key": "dck", "scheme": scheme, "ok": ok})
     dev = D.Device2(u1, fam["socc"], fuses)
@@ -403,6 +493,22 @@ def _run_scenario_ele2(sc):
     ev.append({"e": "Deliver", "verdict": verdict, "detail": detail[:100]})
     if not ok:
         return done()
+
+    # ---- histories of the honest host: every answer is bound to ITS challenge and beacon, whatever the host re-uses
+    def observe(data):
+        mm = D.walk_msg2(data)
+        if mm.get("err"):
+            return {"dcEq": False, "bIs": "malformed"}
+        return {"dcEq": mm["cert"] == dcb, "bIs": beacon_name(mm["beacon"], beacons)}
+
+    def dac_for(d, ch):
+        if ch not in dacs:
+            dacs[ch] = host.parse_dac(dac_bytes(ch))
+        return dacs[ch]
+
+    for h in sc.get("histories", []):
+        ev.append(run_history(host, h, dc_obj if p is None else p, dcb, dck, dac_for, beacons, observe,
+                              lambda data: [{"d": "d1", "ch": ch, "v": dev.verdict(data, chs[ch])[0]} for ch in sorted(chs)]))
     for part, tbl, base in (("dar", [f for f in m["fields"] if f[0] not in ("dc", "pad")], 0), ("dc", c["fields"], m["cert_at"])):
         for name, off, ln in tbl:
             for bit in tamper_bits(r, ln, sc.get("flips", 1)):
@@ -421,7 +527,7 @@ def _run_scenario(sc):
     ks = KEYSET[tuple(ver)]
     host = RefHost(sc) if sc.get("refhost") else Host(sc)
     binds = ver[0] == 2
-    ev = [{"e": "Case", "cls": case["cls"], "ver": ver, "nkeys": n, "used": used, "wild": case["wild"], "sha256": fam["sha256"], "skip": []}]
+    ev = [case_event(sc, ks)]
     wit = {"blobs": {}}
     trace = {"id": sc["id"], "ev": ev, "sc": sc, "wit": wit}
 
@@ -434,9 +540,9 @@ def _run_scenario(sc):
     chs = {"ch1": bytes(r.randrange(256) for _ in range(32)), "ch2": bytes(r.randrange(256) for _ in range(32))}
     b1 = r.randrange(1, 1 << 16)
     beacons = {"b1": b1, "b2": (b1 ^ (1 << r.randrange(16))) or 1}
-    rot = [f"srk{i}" for i in range(n)]
+    rot, dck = key_names(sc)
     socu = r.getrandbits(32)
-    credA = {"uuid": bytes(16) if case["wild"] else uu["d1"], "socu": socu, "vu": r.getrandbits(32), "beacon": r.randrange(1 << 16), "rot": rot, "used": used, "dck": "dck"}
+    credA = {"uuid": bytes(16) if case["wild"] else uu["d1"], "socu": socu, "vu": r.getrandbits(32), "beacon": r.randrange(1 << 16), "rot": rot, "used": used, "dck": dck}
     creds = {
         "cA": credA,
         "cB": dict(credA, socu=(socu ^ (1 << r.randrange(32)))),                                  # same keys, other rights
@@ -463,7 +569,7 @@ def _run_scenario(sc):
     ev.append({"e": "DcLayout", "fields": table(dc["fields"]), "end": dc["end"], "len": len(dcA)})
     ev.append({"e": "DcFields", "out": twin_fields(dc), "flagsOk": dc.get("flags_ok", True)})
     rot_idx = next((i for i, p in enumerate(pubs) if dc["rot_pub"] == p), -1)
-    ev.append({"e": "DcKeys", "rotIdx": rot_idx, "dckOk": dc["dck_pub"] == D.load_pub(kp("dck", ks, "pub")), "tableOk": table_ok(dc, pubs, ele)})
+    ev.append({"e": "DcKeys", "rotIdx": rot_idx, "dckOk": dc["dck_pub"] == D.load_pub(kp(dck, ks, "pub")), "tableOk": table_ok(dc, pubs, ele)})
 
     # ---- SPSDK's own parser (a failure is decided by the spec - there is no such step - and the walk goes on without the parsed object)
     p = None
@@ -497,7 +603,13 @@ def _run_scenario(sc):
             tools = "raise:" + exc_name(e)
     else:
         tools = "n/a"
-    ev.append({"e": "CheckRotHash", "fromBytes": fuses.hex(), "ref": ref.hex(), "dc": dc_hash, "tools": tools})
+    tools2 = "n/a"
+    if sc["tools"] and fam["rot_type"] == "cert_block_21" and not ele:
+        try:
+            tools2 = host.tools2_hash(rot, used).hex()
+        except Exception as e:  # noqa: BLE001
+            tools2 = "raise:" + exc_name(e)
+    ev.append({"e": "CheckRotHash", "fromBytes": fuses.hex(), "ref": ref.hex(), "dc": dc_hash, "tools": tools, "tools2": tools2})
 
     # ---- the device's challenge, read by the host
     hl = 32 if (ele or fam["sha256"] or ver[0] == 1) else {0: 32, 1: 48, 2: 64}[ver[1]]
@@ -535,7 +647,8 @@ def _run_scenario(sc):
 
     # ---- Respond (SPSDK) and walk the response
     try:
-        dar = host.respond(dcA_obj if (sc["dc_for_dar"] == "created" or p is None) else p, dcA, dac, beacons["b1"], "dck", sc["dar_via"])
+        held = dcA_obj if (sc["dc_for_dar"] == "created" or p is None) else p    # the credential object the host holds
+        dar = host.respond(held, dcA, dac, beacons["b1"], dck, sc["dar_via"])
     except Exception as e:  # noqa: BLE001 - nothing was built
         ev.append({"e": "Respond", "ok": False, "exc": exc_name(e), "msg": str(e)[:200], "spsdk": is_spsdk_error(e)})
         return done()
@@ -624,6 +737,17 @@ def _run_scenario(sc):
         spliced = cb + struct.pack("<L", beacons[a["b"]]) + (uu[a["u"]] if binds else b"") + sig
         ev.append({"e": "Attempt", "a": a, "verdict": deliver(spliced, a["d"], a["ch"])})
 
+    # ---- histories of the honest host: every answer is bound to ITS challenge, beacon and (ECC) device, whatever the host re-uses
+    def observe(data):
+        ww = D.walk_dar(data, len(dcA), ver)
+        if ww.get("err") or ww["trailing"]:
+            return {"dcEq": False, "bIs": "malformed"}
+        return {"dcEq": ww["dc"] == dcA, "bIs": beacon_name(ww["beacon"], beacons)}
+
+    for h in sc.get("histories", []):
+        ev.append(run_history(host, h, held, dcA, dck, dac_obj, beacons, observe,
+                              lambda data: [{"d": d, "ch": ch, "v": deliver(data, d, ch)} for d in sorted(uu) for ch in sorted(chs)]))
+
     # ---- tamper: one flipped bit per field of the honest response
     for part, tbl, base in (("dc", dc["fields"], 0), ("dar", [f for f in w["fields"] if f[0] != "dc"], 0)):
         for name, off, ln in tbl:
@@ -632,6 +756,21 @@ def _run_scenario(sc):
                 t[off + bit // 8] ^= 1 << (bit % 8)
                 ev.append({"e": "Tamper", "part": part, "field": strip_idx(name), "at": off + bit // 8, "bit": bit % 8, "verdict": deliver(bytes(t), "d1", "ch1")})
     return done()
+
+
+def run_history(host, h, dc_obj, dc_bytes, dck_name, dac_for, beacons, observe, verdicts):
+    """Execute one history (a sequence of answers of the same host, DatTerms.ValidHistory) on the real code; per step: does the answer
+    embed the credential and the beacon of THIS step, and what do the devices of the twin say to it for each challenge."""
+    host.hist_begin()
+    obs = []
+    for s in h:
+        try:
+            data = host.hist_step(s["m"], dc_obj, dc_bytes, dac_for(s["d"], s["ch"]), beacons[s["b"]], dck_name)
+        except Exception as e:  # noqa: BLE001 - the host refused: nothing was built
+            obs.append({"ok": False, "dcEq": False, "bIs": "-", "v": [], "exc": exc_name(e), "msg": str(e)[:120]})
+            continue
+        obs.append(dict(observe(data), ok=True, v=verdicts(data), exc="", msg=""))
+    return {"e": "History", "h": h, "obs": obs}
 
 
 def tamper_bits(r, nbytes, flips):
@@ -675,10 +814,28 @@ def core_attempts(binds):
     return res
 
 
-def plan(cases, attempts, fams, tier, r):
-    """Scenarios: every abstract case on several families; every family at least once; attempts dealt round-robin."""
+def step(m, d, ch, b):
+    return {"m": m, "d": d, "ch": ch, "b": b}
+
+
+def core_histories(cls, noobj):
+    """Histories every scenario executes: the configuration object used again for another challenge and beacon (and then for the first
+    ones again), the credential object used again, a response object exported twice."""
+    cfg = [step("fresh", "d1", "ch1", "b1"), step("cfg", "d1", "ch2", "b2"), step("cfg", "d1", "ch1", "b1")]
+    if cls == "ele2":
+        return [cfg, [step("fresh", "d1", "ch1", "b1"), step("again", "d1", "ch1", "b1"), step("cfg", "d1", "ch2", "b1")]]
+    if noobj:
+        return [cfg, [step("fresh", "d1", "ch1", "b1"), step("again", "d1", "ch1", "b1"), step("cfg", "d2", "ch2", "b1")]]
+    return [cfg, [step("obj", "d1", "ch1", "b1"), step("obj", "d1", "ch2", "b2"), step("again", "d1", "ch2", "b2")],
+            [step("obj", "d2", "ch1", "b1"), step("fresh", "d1", "ch2", "b1"), step("obj", "d1", "ch1", "b2")]]
+
+
+def plan(cases, attempts, fams, tier, r, histories=()):
+    """Scenarios: every abstract case on several families; every family at least once; attempts and histories dealt round-robin."""
     per_case = 2 if tier == "quick" else 10
+    per_shape = 1 if tier == "quick" else 3      # cases that differ from a plain case only in the shape of one key
     n_att = 14 if tier == "quick" else 60
+    n_hist = 2 if tier == "quick" else 10
     by_cls = {"classic": [f for f in fams if not f["ele"]], "ele1": [f for f in fams if f["ele"] and f["cnt"] == 1],
               "ele2": [f for f in fams if f["ele"] and f["cnt"] == 2]}
     scs = []
@@ -694,7 +851,8 @@ def plan(cases, attempts, fams, tier, r):
         chosen = []
         if indom:
             chosen.append(r.choice(indom))
-        while len(chosen) < min(per_case, max(2, len(pool))):
+        want = per_case if case.get("lz", "none") == "none" else per_shape
+        while len(chosen) < min(want, max(2, len(pool))):
             f = r.choice(pool if (tier == "thorough" or not indom or r.random() < 0.3) else indom)
             if f not in chosen or len(pool) < per_case:
                 chosen.append(f)
@@ -706,12 +864,30 @@ def plan(cases, attempts, fams, tier, r):
         cls = "ele1" if f["ele"] and f["cnt"] == 1 else "ele2" if f["ele"] and f["cnt"] == 2 else "classic" if not f["ele"] else None
         if cls is None:
             continue
-        pool = [c for c in cases if c["cls"] == cls and tools_apply(f, cls, c["ver"])] or [c for c in cases if c["cls"] == cls]
+        plain = [c for c in cases if c.get("lz", "none") == "none"]
+        pool = [c for c in plain if c["cls"] == cls and tools_apply(f, cls, c["ver"])] or [c for c in plain if c["cls"] == cls]
         add(r.choice(pool), f)
     cycles = {b: r.sample([a for a in attempts if a["binds"] == b], k=len([a for a in attempts if a["binds"] == b])) for b in (True, False)}
+    # histories: all of them for the classic response classes; without the response constructor where it cannot be used (signed-message
+    # variant; a family revision that is not the latest of an enclave family); the signed-message variant has one device in its world
+    hpool = {"all": list(histories), "noobj": [h for h in histories if all(s_["m"] != "obj" for s_ in h)]}
+    hpool["msg"] = [h for h in hpool["noobj"] if all(s_["d"] == "d1" for s_ in h)]
+    hcyc = {k: r.sample(x, k=len(x)) for k, x in hpool.items()}
+    hpos = {k: 0 for k in hpool}
     pos = {True: 0, False: 0}
     for i, sc in enumerate(scs):
         binds = sc["case"]["ver"][0] == 2
+        hk = "msg" if sc["case"]["cls"] == "ele2" else "noobj" if sc["fam"]["fclass"].endswith("-oldrev") else "all"
+        hcore = core_histories(sc["case"]["cls"], hk != "all")
+        if histories:
+            missing = [h for h in hcore if h not in hpool[hk]]
+            if missing:
+                raise Machinery(f"core history {missing[0]} is not in the space TLC enumerated")
+        hextra = []
+        for _ in range(n_hist if histories else 0):
+            hextra.append(hcyc[hk][hpos[hk] % len(hcyc[hk])])
+            hpos[hk] += 1
+        sc["histories"] = hcore + [h for h in hextra if h not in hcore]
         extra = []
         for _ in range(n_att):
             extra.append(cycles[binds][pos[binds] % len(cycles[binds])])
@@ -788,11 +964,34 @@ def finding_key(t, matched):
         h = core_attempts(a["binds"])[0]
         sub = [k for k in ("c0", "u0", "ch0", "c", "i", "b", "u", "d", "ch") if a[k] != h[k]]
         detail = f"subst={'+'.join(sub) or 'none'}/{ev['verdict']}"
+    elif e == "History":
+        detail = history_detail(ev, sc["case"]["wild"])
     elif e == "Tamper":
         detail = f"{ev['part']}.{ev['field']}/{ev['verdict']}"
     elif e == "Deliver":
         detail = ev["verdict"]
     return f"C15/{ver}/{sc['fam']['fclass']}/{e}" + (f"/{detail}" if detail else "")
+
+
+def history_detail(ev, wild):
+    """Name of the first step of a rejected history that does not look like the answer to its own challenge (for the finding key only:
+    the verdict was TLC's)."""
+    for k, (s_, o) in enumerate(zip(ev["h"], ev["obs"])):
+        if not o["ok"]:
+            continue
+        acc = {(x["d"], x["ch"]) for x in o["v"] if x["v"] == "Accept"}
+        what = []
+        if not o["dcEq"]:
+            what.append("credential")
+        if o["bIs"] != s_["b"]:
+            what.append("beacon")
+        if any(ch != s_["ch"] for _, ch in acc):
+            what.append("accepted-for-other-challenge")
+        if (wild or s_["d"] == "d1") and (s_["d"], s_["ch"]) not in acc:
+            what.append("own-challenge-not-accepted")
+        if what:
+            return f"step{k + 1}={s_['m']}/" + "+".join(what)
+    return "modes=" + "-".join(s_["m"] for s_ in ev["h"])
 
 
 def slim(t):
@@ -822,13 +1021,13 @@ def continuation(t, matched, rnd):
     if matched >= len(t["ev"]):
         return None
     name = t["ev"][matched]["e"]
-    if name not in SKIPPABLE and name not in ("Attempt", "Tamper"):
+    if name not in SKIPPABLE and name not in ("Attempt", "Tamper", "History"):
         return None
     ev = json.loads(json.dumps(t["ev"][:matched] + t["ev"][matched + 1:]))
     if name in SKIPPABLE:
         ev[0]["skip"] = ev[0]["skip"] + [name]
         if name == "CheckResponseSignature":  # without an accepted honest response the attempts say nothing
-            ev = [e for e in ev if e["e"] not in ("Attempt", "Tamper")]
+            ev = [e for e in ev if e["e"] not in ("Attempt", "Tamper", "History")]
     return dict(t, id=t["id"] % 100000 + 100000 * (rnd + 1), ev=ev)
 
 
@@ -837,22 +1036,24 @@ def canary(fams):
     The known-good trace comes from a host made of the twin's own tools (RefHost), so it does not depend on the tree under test."""
     fam = next(f for f in fams if f["fclass"] == "cb21" and f["latest"])
     case = {"kind": "case", "cls": "classic", "ver": [2, 0], "nkeys": 3, "used": 1, "wild": False}
-    good = run_scenario({"id": 999999, "case": case, "fam": fam, "attempts": core_attempts(True), "tools": True, "via": "yaml-family", "explicit_version": False,
-                         "dar_via": "create", "dc_for_dar": "created", "refhost": True})
+    good = run_scenario({"id": 999999, "case": case, "fam": fam, "attempts": core_attempts(True), "histories": core_histories("classic", False), "tools": True,
+                         "via": "yaml-family", "explicit_version": False, "dar_via": "create", "dc_for_dar": "created", "refhost": True})
     if good.get("harness_error"):
         raise Machinery("canary: " + good["harness_error"])
     if good["ev"][-2]["e"] != "Tamper":
         raise Machinery(f"canary: the reference host's trace is incomplete: {json.dumps(good['ev'][-3:])[:400]}")
     g = json.loads(json.dumps({"id": "good", "ev": good["ev"]}))
     more = []
-    for k, (cls, ver, nk, used, wild, fclass) in enumerate([("classic", [1, 0], 2, 1, True, "cb1"), ("ele1", [2, 1], 4, 3, False, "ele1"), ("classic", [2, 1], 1, 0, True, "cb21-sha256")]):
+    for k, (cls, ver, nk, used, wild, fclass, lz, coord) in enumerate([
+            ("classic", [1, 0], 2, 1, True, "cb1", "none", "-"), ("ele1", [2, 1], 4, 3, False, "ele1", "none", "-"), ("classic", [2, 1], 1, 0, True, "cb21-sha256", "none", "-"),
+            ("classic", [2, 0], 3, 1, False, "cb21", "other", "x"), ("classic", [2, 1], 2, 0, True, "cb21", "used", "y"), ("ele1", [2, 0], 4, 2, False, "ele1", "dck", "x")]):
         f2 = next(f for f in fams if f["fclass"] == fclass and f["latest"])
-        t2 = run_scenario({"id": 999990 + k, "case": {"kind": "case", "cls": cls, "ver": ver, "nkeys": nk, "used": used, "wild": wild}, "fam": f2,
-                           "attempts": core_attempts(ver[0] == 2), "tools": True, "via": "yaml-family", "explicit_version": False, "dar_via": "create",
-                           "dc_for_dar": "created", "refhost": True})
+        t2 = run_scenario({"id": 999990 + k, "case": {"kind": "case", "cls": cls, "ver": ver, "nkeys": nk, "used": used, "wild": wild, "lz": lz, "coord": coord}, "fam": f2,
+                           "attempts": core_attempts(ver[0] == 2), "histories": core_histories(cls, False), "tools": True, "via": "yaml-family",
+                           "explicit_version": False, "dar_via": "create", "dc_for_dar": "created", "refhost": True})
         if t2.get("harness_error") or t2["ev"][-2]["e"] != "Tamper":
             raise Machinery(f"canary: reference host failed for {cls} {ver}: {t2.get('harness_error') or json.dumps(t2['ev'][-3:])[:400]}")
-        more.append({"id": f"good-{cls}-{ver[0]}.{ver[1]}", "ev": t2["ev"]})
+        more.append({"id": f"good-{cls}-{ver[0]}.{ver[1]}-{lz}{coord}", "ev": t2["ev"]})
     bad = []
 
     def mutate(name, fn):
@@ -881,6 +1082,17 @@ def canary(fams):
         next(e for e in evs if e["e"] == "Tamper").update(verdict="Accept")
 
     mutate("bad-tamper", accept_tamper)
+
+    def stale_history(m, evs):  # the second answer of a history verifies for the OTHER challenge (what a host that remembers its first answer produces)
+        for x in m["History"]["obs"][1]["v"]:
+            x["ch"] = {"ch1": "ch2", "ch2": "ch1"}[x["ch"]]
+
+    mutate("bad-history-challenge", stale_history)
+    mutate("bad-history-beacon", lambda m, evs: m["History"]["obs"][1].update(bIs={"b1": "b2", "b2": "b1"}[m["History"]["obs"][1]["bIs"]]))
+    mutate("bad-history-order", lambda m, evs: m["History"]["h"][0].update(m="cfg"))   # not a history of the case space
+    mutate("bad-shape", lambda m, evs: m["Case"]["shapes"]["rot"].__setitem__(0, "x"))  # a key of another shape than the case says
+    mutate("bad-tools2", lambda m, evs: m["CheckRotHash"].update(tools2="11" + m["CheckRotHash"]["tools2"][2:] if not m["CheckRotHash"]["tools2"].startswith("11")
+                                                                 else "00" + m["CheckRotHash"]["tools2"][2:]))
     rej, _ = tlc.tv("C15", "DatTrace", [g] + more + bad)
     want = {b["id"] for b in bad}
     if set(rej) != want:
@@ -906,9 +1118,15 @@ def run(tier):
     items = gen.json_prints()
     cases = [x for x in items if x["kind"] == "case"]
     attempts = [{k: x for k, x in a.items() if k != "kind"} for a in items if a["kind"] == "attempt"]
-    if len(cases) != 164 or len(attempts) != 2304 or gen.distinct != len(items):
-        raise Machinery(f"GEN emitted {len(cases)} cases / {len(attempts)} attempts / {gen.distinct} states")
-    say(f"[C15] GEN done {v.timer.s()}s: {len(cases)} cases, {len(attempts)} delivery attempts")
+    histories = [[{k: s_[k] for k in ("m", "d", "ch", "b")} for s_ in x["h"]] for x in items if x["kind"] == "history"]
+    n_plain = len([c for c in cases if c["lz"] == "none"])
+    if n_plain != 164 or len(cases) != 588 or len(attempts) != 2304 or len(histories) != 2040 or gen.distinct != len(items):
+        raise Machinery(f"GEN emitted {len(cases)} cases ({n_plain} plain) / {len(attempts)} attempts / {len(histories)} histories / {gen.distinct} states")
+    say(f"[C15] GEN done {v.timer.s()}s: {len(cases)} cases ({len(cases) - n_plain} with a leading-zero key), {len(attempts)} delivery attempts, {len(histories)} histories")
+    for ks_ in ("ecc256", "ecc384"):   # the key pool has the shapes the case space names
+        for nm, want in (("lzx", "x"), ("lzy", "y"), ("srk0", "-"), ("srk1", "-"), ("srk2", "-"), ("srk3", "-"), ("dck", "-")):
+            if shape(D.load_pub(kp(nm, ks_, "pub"))) != want:
+                raise Machinery(f"key pool: {nm}_{ks_} has shape {shape(D.load_pub(kp(nm, ks_, 'pub')))}, expected {want}")
 
     # ---- MC of the protocol in a forked child while the real code runs (forked before any thread exists)
     import multiprocessing as mp
@@ -934,7 +1152,7 @@ def run(tier):
     fams = dat_families()
     if len({f["family"] for f in fams}) < 60:
         raise Machinery(f"only {len(fams)} DAT families found in the database")
-    scs = plan(cases, attempts, fams, tier, r)
+    scs = plan(cases, attempts, fams, tier, r, histories)
     say(f"[C15] {len(scs)} scenarios over {len({(s['fam']['family'], s['fam']['revision']) for s in scs})} family revisions")
     order = r.sample(scs, k=len(scs))  # spread the expensive (RSA-4096) scenarios over the pool
     traces = sorted(pmap(run_scenario, order, chunksize=2), key=lambda t: t["id"])
@@ -956,7 +1174,7 @@ def run(tier):
             raise Machinery(f"DatMC: {inv} should be violated (vacuous model), got {nv.violated}")
 
     # ---- accounting
-    refused, n_att, n_tamper = {}, 0, 0
+    refused, n_att, n_tamper, n_hist, hsteps, hrefused = {}, 0, 0, 0, {}, {}
     for t in traces:
         sc = t["sc"]
         v.count(1)
@@ -969,9 +1187,32 @@ def run(tier):
                 v.nontrivial(("attempt", sc["case"]["cls"], sc["case"]["wild"], json.dumps(e["a"], sort_keys=True)))
             if e["e"] == "Tamper":
                 n_tamper += 1
+            if e["e"] == "History":
+                n_hist += 1
+                v.nontrivial(("history", sc["case"]["cls"], sc["case"]["ver"][0], sc["case"]["wild"], json.dumps(e["h"], sort_keys=True)))
+                for s_, o in zip(e["h"], e["obs"]):
+                    if o["ok"]:
+                        hsteps[(sc["case"]["cls"], s_["m"])] = hsteps.get((sc["case"]["cls"], s_["m"]), 0) + 1
+                    else:
+                        hrefused.setdefault(f"{sc['case']['cls']}/{s_['m']}/{o['exc']}", []).append(sc["fam"]["family"])
         if any(e["e"] == "CheckResponseSignature" for e in t["ev"]):
             v.nontrivial(("case", sc["fam"]["fclass"], json.dumps(sc["case"], sort_keys=True)))
-    v.count(n_att + n_tamper)
+    v.count(n_att + n_tamper + sum(hsteps.values()))
+    # non-vacuity of the history lane: every way of re-using an object was really executed for every response class
+    for cls_, modes in (("classic", ("fresh", "cfg", "obj", "again")), ("ele1", ("fresh", "cfg", "obj", "again")), ("ele2", ("fresh", "cfg", "again"))):
+        for m_ in modes:
+            if not hsteps.get((cls_, m_)):
+                raise Machinery(f"no history step '{m_}' was built for class {cls_}: {json.dumps({k: x[:3] for k, x in hrefused.items()})[:600]}")
+    # ... and so was the root-of-trust-hash clause on both sides for every key shape
+    seen = set()
+    for t in traces:
+        c_ = t["sc"]["case"]
+        for e in t["ev"]:
+            if e["e"] == "CheckRotHash" and e["tools"] != "n/a" and (c_["cls"] == "ele2" or e["dc"] != "n/a"):
+                seen.add((c_["cls"], tuple(c_["ver"]), c_["lz"], c_["coord"], e["tools2"] != "n/a"))
+    for c_ in cases:
+        if c_["lz"] != "none" and not any(x[:4] == (c_["cls"], tuple(c_["ver"]), c_["lz"], c_["coord"]) and (x[4] or c_["cls"] != "classic") for x in seen):
+            raise Machinery(f"root-of-trust hash of the image tools never evaluated for key shape {c_['lz']}/{c_['coord']} of {c_['cls']} {c_['ver']}")
     cells = {}
     for t in traces:
         cell = (t["sc"]["case"]["cls"], tuple(t["sc"]["case"]["ver"]))
@@ -984,6 +1225,8 @@ def run(tier):
     if set(cells) - answered:
         raise Machinery(f"no response at all could be built for {sorted(set(cells) - answered)}: {refused}")
     v.extra.update(refused={f"{c[0]}/{c[1][0]}.{c[1][1]}": x[:5] for c, x in refused.items()}, attempts_executed=n_att, tamper_executed=n_tamper,
+                   histories_executed=n_hist, history_steps_built={f"{k[0]}/{k[1]}": x for k, x in sorted(hsteps.items())},
+                   history_steps_refused={k: len(x) for k, x in sorted(hrefused.items())},
                    families=len({t["sc"]["fam"]["family"] for t in traces}), family_revisions=len({(t["sc"]["fam"]["family"], t["sc"]["fam"]["revision"]) for t in traces}))
 
     # ---- canary, then TLC decides every trace
